@@ -1276,7 +1276,23 @@ impl World for WorldB {
                     let n = rng.range(1, 3);
                     let mut msgs: Vec<Value> = vec![];
                     for _ in 0..n {
-                        if !allow.is_empty() && rng.chance(4, 5) {
+                        if allow.len() >= 2 && rng.chance(1, 4) {
+                            // one send that uses up one denomination exactly and also draws on another one
+                            let i0 = rng.below(allow.len() as u64 - 1) as usize;
+                            let i1 = rng.range(i0 as u64 + 1, allow.len() as u64 - 1) as usize;
+                            let second = match rng.below(4) {
+                                0 => allow[i1].amount.u128(),
+                                1 => allow[i1].amount.u128() + 1,
+                                _ => (allow[i1].amount.u128() / 2).max(1),
+                            };
+                            let mut amount = vec![Coin::new(allow[i0].amount.u128(), allow[i0].denom.clone()), Coin::new(second, allow[i1].denom.clone())];
+                            if rng.chance(1, 3) {
+                                amount.reverse();
+                            }
+                            let to = self.pick_recipient(rng);
+                            msgs.push(cm(&CosmosMsg::Bank(BankMsg::Send { to_address: to, amount })));
+                            self.meter.hit("send_draining_one_denom_and_touching_another");
+                        } else if !allow.is_empty() && rng.chance(4, 5) {
                             let k = rng.range(1, allow.len().min(2) as u64) as usize;
                             let mut amount = vec![];
                             for c in allow.iter().take(k) {
